@@ -12,7 +12,7 @@ use std::sync::atomic::{AtomicU64, AtomicUsize, Ordering};
 use std::sync::Arc;
 use std::task::{Context, Poll, Wake, Waker};
 
-pub const NF: usize = 10;
+pub const NF: usize = 15;
 static BODY: [AtomicUsize; NF] = [const { AtomicUsize::new(0) }; NF];
 static FRESH: AtomicU64 = AtomicU64::new(1);
 static FRESH_UNIT: AtomicU64 = AtomicU64::new(0);
@@ -82,6 +82,55 @@ pub async fn af_bg1(x: u32) -> u32 {
 pub async fn af_bg2(s: &str) -> usize {
     YieldOnce(false).await;
     s.len() + 1
+}
+pub async fn af_opt(n: u64) -> Option<Box<u64>> {
+    BODY[10].fetch_add(1, Ordering::SeqCst);
+    if n % 3 == 0 {
+        None
+    } else {
+        Some(Box::new(n + 1))
+    }
+}
+pub async fn af_f64(x: f64) -> f64 {
+    BODY[11].fetch_add(1, Ordering::SeqCst);
+    x * 1.5
+}
+pub async fn af_u8(x: u8) -> u8 {
+    BODY[12].fetch_add(1, Ordering::SeqCst);
+    x.wrapping_add(5)
+}
+pub async fn af_pair(x: u64) -> (u64, String) {
+    BODY[13].fetch_add(1, Ordering::SeqCst);
+    (x + 1, format!("p{x}"))
+}
+/// a large by-memory output that owns heap memory and counts its constructions and drops
+pub struct BigDrop {
+    pub a: [u64; 8],
+    pub v: Vec<u64>,
+    pub tag: u64,
+}
+pub static BIG_NEW: AtomicU64 = AtomicU64::new(0);
+pub static BIG_DROP: AtomicU64 = AtomicU64::new(0);
+impl BigDrop {
+    pub fn new(tag: u64) -> BigDrop {
+        BIG_NEW.fetch_add(1, Ordering::SeqCst);
+        BigDrop { a: [tag; 8], v: vec![tag ^ 0x55; 5], tag }
+    }
+    fn digest(&self) -> u64 {
+        if self.a.iter().any(|x| *x != self.tag) || self.v.len() != 5 || self.v.iter().any(|x| *x != self.tag ^ 0x55) {
+            return u64::MAX; // torn value
+        }
+        self.tag
+    }
+}
+impl Drop for BigDrop {
+    fn drop(&mut self) {
+        BIG_DROP.fetch_add(1, Ordering::SeqCst);
+    }
+}
+pub async fn af_bigdrop(x: u64) -> BigDrop {
+    BODY[14].fetch_add(1, Ordering::SeqCst);
+    BigDrop::new(x | (1 << 40))
 }
 pub struct Svc {
     pub base: u32,
@@ -171,6 +220,17 @@ fn orig(i: usize, a: u64) -> u64 {
             }
         }
         8 => (a as u32).wrapping_add(88) as u64,
+        10 => {
+            if a % 3 == 0 {
+                1
+            } else {
+                hash64(a + 1)
+            }
+        }
+        11 => ((a % 1000) as f64 * 1.5).to_bits(),
+        12 => (a as u8).wrapping_add(5) as u64,
+        13 => hash64(a + 1) ^ h_str(&format!("p{a}")),
+        14 => a | (1 << 40),
         _ => 1000u32.wrapping_add(a as u32) as u64,
     }
 }
@@ -222,6 +282,14 @@ fn await_fn(i: usize, a: u64, mode: Mode) -> (u64, usize, bool) {
         6 => go!(af_arr(a), |v: [u64; 32]| h_arr(&v)),
         7 => go!(af_res((a % 50) as usize), |v: Result<Vec<u8>, String>| h_res(&v)),
         8 => go!(af_yield(a as u32), |v: u32| v as u64),
+        10 => go!(af_opt(a), |v: Option<Box<u64>>| match v {
+            None => 1,
+            Some(b) => hash64(*b),
+        }),
+        11 => go!(af_f64((a % 1000) as f64), |v: f64| v.to_bits()),
+        12 => go!(af_u8(a as u8), |v: u8| v as u64),
+        13 => go!(af_pair(a), |v: (u64, String)| hash64(v.0) ^ h_str(&v.1)),
+        14 => go!(af_bigdrop(a), |v: BigDrop| v.digest()),
         _ => go!(SVC.get(a as u32), |v: u32| v as u64),
     }
 }
@@ -319,6 +387,39 @@ fn fake_fn(inj: &mut InjectorPP, i: usize, variant: usize) -> Src {
         8 => {
             inj.when_called_async(injectorpp::async_func!(af_yield(0), u32)).will_return_async(injectorpp::async_return!(777_008, u32));
             Src::Const(777_008)
+        }
+        10 => {
+            if fresh {
+                inj.when_called_async(injectorpp::async_func!(af_opt(0), Option<Box<u64>>)).will_return_async(injectorpp::async_return!(Some(Box::new(fresh_val())), Option<Box<u64>>));
+                Src::Fresh
+            } else if unchecked {
+                inj.when_called_async(injectorpp::async_func!(af_opt(0), Option<Box<u64>>)).will_return_async(injectorpp::async_return!(None, Option<Box<u64>>));
+                Src::Const(1)
+            } else {
+                inj.when_called_async(injectorpp::async_func!(af_opt(0), Option<Box<u64>>)).will_return_async(injectorpp::async_return!(Some(Box::new(777_010)), Option<Box<u64>>));
+                Src::Const(hash64(777_010))
+            }
+        }
+        11 => {
+            inj.when_called_async(injectorpp::async_func!(af_f64(0.0), f64)).will_return_async(injectorpp::async_return!(-2.5e300, f64));
+            Src::Const((-2.5e300f64).to_bits())
+        }
+        12 => {
+            inj.when_called_async(injectorpp::async_func!(af_u8(0), u8)).will_return_async(injectorpp::async_return!(0xA7, u8));
+            Src::Const(0xA7)
+        }
+        13 => {
+            if fresh {
+                inj.when_called_async(injectorpp::async_func!(af_pair(0), (u64, String))).will_return_async(injectorpp::async_return!((fresh_val(), "fresh".to_string()), (u64, String)));
+                Src::Fresh
+            } else {
+                inj.when_called_async(injectorpp::async_func!(af_pair(0), (u64, String))).will_return_async(injectorpp::async_return!((13, "thirteen".to_string()), (u64, String)));
+                Src::Const(hash64(13) ^ h_str("thirteen"))
+            }
+        }
+        14 => {
+            inj.when_called_async(injectorpp::async_func!(af_bigdrop(0), BigDrop)).will_return_async(injectorpp::async_return!(BigDrop::new(fresh_val() | (1 << 41)), BigDrop));
+            Src::Fresh
         }
         _ => {
             inj.when_called_async(injectorpp::async_func!(SVC.get(0), u32)).will_return_async(injectorpp::async_return!(777_009, u32));
@@ -572,6 +673,9 @@ pub fn run(ctx: &Ctx) {
                     break 'outer;
                 }
             }
+        }
+        if err.is_none() && BIG_DROP.load(Ordering::SeqCst) > BIG_NEW.load(Ordering::SeqCst) {
+            err = Some(format!("a value of the large output type was dropped more often ({}) than values were made ({})", BIG_DROP.load(Ordering::SeqCst), BIG_NEW.load(Ordering::SeqCst)));
         }
         match err {
             None => out::outcome(idx, &class, Verdict::Held, "", &J::new().s("history", &ops_desc.join(" "))),
